@@ -6,7 +6,7 @@ AREA = "Translate"
 
 GEN_CFG = """SPECIFICATION Spec
 CONSTANTS
-  VarPool = {"n0", "n1", "n2", "e0", "e1", "s0", "s1", "s2", "i0", "pi0", "pc0", "ep0", "ex0", "path", "depth", "root_id", "next_id", "satisfied", "is_cycle", "id", "kind_ids", "properties", "start_id", "end_id", "kind_id", "graph_id", "node", "edge", "kind", "graph", "select", "from", "a"}
+  VarPool = {"n0", "n1", "n2", "e0", "e1", "s0", "s1", "s2", "i0", "pi0", "pc0", "ep0", "ex0", "path", "depth", "root_id", "next_id", "satisfied", "is_cycle", "id", "kind_ids", "properties", "start_id", "end_id", "kind_id", "graph_id", "node", "edge", "kind", "graph", "select", "from", "a", "`a b`", "`n`", "`q-1`"}
   PairPool = {"n0", "n1", "e0", "s0", "s1", "i0", "path"}
   ParamPool = {"#v0", "#v1", "#v2", "n0", "pi0", "pi1", "s0", "a"}
 """
@@ -14,6 +14,8 @@ CONSTANTS
 
 def name_class(n):
     m = re.fullmatch(r"(n|e|s|i|pi|pc|ep|ex)(\d+)", n)
+    if n.startswith("`"):
+        return "escaped-name"
     return "generated-identifier(%s)" % n if m else "sql-name(%s)" % n if n in ("path", "depth", "root_id", "next_id", "satisfied", "is_cycle", "id", "kind_ids", "properties", "start_id", "end_id",
                                                                               "kind_id", "graph_id", "node", "edge", "kind", "graph", "select", "from") else "plain"
 
